@@ -43,6 +43,73 @@ def read(fmt, path):
     return CommonRoadFileReader(path, file_format=FileFormat.XML if fmt == "xml" else FileFormat.PROTOBUF).open()
 
 
+def reuse_routes(w, sc, pps, esc, epps, fmt, precision, fn, already=()):
+    """Further uses of the SAME reader object and the SAME writer object (both entry points keep per-object state):
+       (1) a reader whose first result was edited by the caller is asked again (open, open_lanelet_network): it reads the file, not its memory;
+       (2) the scenario the writer was constructed with is edited in place (moved) and the writer writes again: the file holds the edited scenario.
+       -> list of (signature suffix, detail); esc/epps is the convention-adjusted twin the expectation is taken from (may be sc/pps itself);
+       `already` = the (path, kind) differences the first, ordinary round trip of this spec showed (reported there, not again per route)."""
+    import numpy as np
+    from commonroad.common.file_writer import OverwriteExistingFile
+    from commonroad.common.file_reader import CommonRoadFileReader
+    from commonroad.common.util import FileFormat
+    out = []
+    ff = FileFormat.XML if fmt == "xml" else FileFormat.PROTOBUF
+    shift = np.array([3.0, -2.0])
+
+    def cmp(tag, s_exp, s_got):
+        seen = set()
+        for path, kind, detail in compare(s_exp, s_got, fmt, precision):
+            p_, k_ = classify(path, kind)
+            if (p_, k_) not in seen and (p_, k_) not in already:
+                seen.add((p_, k_)); out.append((f"{tag}|{p_}|{k_}", f"{path}: {detail}"))
+    s0 = snapshot(esc, epps)
+    try:
+        r = CommonRoadFileReader(fn, file_format=ff)
+        a_sc, a_pps = r.open()
+        try:
+            a_sc.translate_rotate(shift, 0.0)
+            if a_sc.lanelet_network.lanelets:
+                a_sc.remove_lanelet(a_sc.lanelet_network.lanelets[-1])
+        except Exception:
+            pass
+        net = r.open_lanelet_network()          # asked for right after the caller edited the first result
+        b_sc, b_pps = r.open()
+        sb = snapshot(b_sc, b_pps)
+        cmp("reader-used-again:open", s0, sb)
+        sn = dict(sb, scenario=dict(sb["scenario"], network=snap.network(net)))
+        cmp("reader-used-again:open_lanelet_network", s0, sn)
+        try:
+            b_sc.translate_rotate(-shift, 0.0)
+        except Exception:
+            pass
+        net2 = r.open_lanelet_network()
+        cmp("reader-used-again:open_lanelet_network(2)", s0, dict(sb, scenario=dict(sb["scenario"], network=snap.network(net2))))
+    except Exception as e:
+        out.append((f"reader-used-again|raises:{type(e).__name__}", repr(e)))
+    try:
+        sc.translate_rotate(shift, 0.0)
+        if pps is not None:
+            pps.translate_rotate(shift, 0.0)
+        if esc is not sc:
+            esc.translate_rotate(shift, 0.0)
+            if epps is not None:
+                epps.translate_rotate(shift, 0.0)
+    except Exception:
+        return out          # moving is C05's subject; nothing further is asserted here
+    fn3 = fn + ".third"
+    try:
+        w.write_to_file(fn3, OverwriteExistingFile.ALWAYS)
+        c_sc, c_pps = read(fmt, fn3)
+        cmp("same-writer-after-the-scenario-was-moved", snapshot(esc, epps), snapshot(c_sc, c_pps))
+    except Exception as e:
+        out.append((f"same-writer-after-the-scenario-was-moved|raises:{type(e).__name__}", repr(e)))
+    finally:
+        if os.path.exists(fn3):
+            os.remove(fn3)
+    return out
+
+
 INIT_DEFAULT_ATTRS = ("velocity", "acceleration", "yaw_rate", "slip_angle", "orientation")
 
 
